@@ -1,2 +1,304 @@
--- stub driver for C06: replaced when the property's model exists
-def main : IO Unit := pure ()
+import Snel.Model.Proto
+import Snel.Model.Validate
+/-!
+Driver for C06. Streams (first token):
+
+* `alias <hex>`                                → `none` | type
+* `deftypes <n> (<name> <spec>)*`              → `<name>:<type>` …            (DEFINE → field types)
+* `store <etype> <ctx> <defined> <n> (<name> <field>)* <ncal> (<str> <calres>)* <json>`
+                                               → `ok <stored payload summary>` | `err <kind>`
+* `session <ncal> (<str> <calres>)* <nops> <op>*` → one answer per op, `;`-separated
+
+`<field>` = `p<hex>` (primitive spec text) | `e <n> <hex>*` (enum spec) | `T <type>` (a `FieldType`
+given directly); `<type>` = `S|U|I|F|B|T|D` | `O <type>` | `E <n> <hex>*`.
+`<json>` = the prefix tokens of `enc::json_tokens`. `<calres>` = `n` | `z<int>`.
+-/
+open Snel Snel.Proto Snel.Validate
+
+abbrev P (α : Type) := List String → Option (α × List String)
+
+def hexStr (tok : String) : Option String := do
+  let bs ← unhex tok
+  String.fromUTF8? (ByteArray.mk bs.toArray)
+
+def strHex (s : String) : String := hexOfBytes s.toUTF8.toList
+
+def pNat : P Nat
+  | t :: r => t.toNat?.map (·, r)
+  | [] => none
+
+def pStr : P String
+  | t :: r => (hexStr t).map (·, r)
+  | [] => none
+
+def pMany {α} (p : P α) : Nat → P (List α)
+  | 0, ts => some ([], ts)
+  | n + 1, ts => do
+    let (x, ts) ← p ts
+    let (xs, ts) ← pMany p n ts
+    some (x :: xs, ts)
+
+def pType : Nat → P FieldType
+  | 0, _ => none
+  | fuel + 1, t :: r =>
+    match t with
+    | "S" => some (.string, r)
+    | "U" => some (.u64, r)
+    | "I" => some (.i64, r)
+    | "F" => some (.f64, r)
+    | "B" => some (.bool, r)
+    | "T" => some (.timestamp, r)
+    | "D" => some (.date, r)
+    | "O" => do
+      let (ty, r) ← pType fuel r
+      some (.optional ty, r)
+    | "E" => do
+      let (n, r) ← pNat r
+      let (vs, r) ← pMany pStr n r
+      some (.enum vs, r)
+    | _ => none
+  | _, [] => none
+
+/-- A schema entry: either a DEFINE spec (goes through `fieldOfSpec`) or a direct type. -/
+def pField : P (Sum FieldSpec FieldType)
+  | t :: r =>
+    if t == "e" then do
+      let (n, r) ← pNat r
+      let (vs, r) ← pMany pStr n r
+      some (.inl (.enum vs), r)
+    else if t == "T" then do
+      let (ty, r) ← pType (r.length + 1) r
+      some (.inr ty, r)
+    else if t.startsWith "p" then do
+      let s ← hexStr (t.drop 1).toString
+      some (.inl (.prim s), r)
+    else none
+  | [] => none
+
+def fieldType : Sum FieldSpec FieldType → FieldType
+  | .inl s => fieldOfSpec s
+  | .inr t => t
+
+def pNamedField : P (String × Sum FieldSpec FieldType) := fun ts => do
+  let (k, ts) ← pStr ts
+  let (f, ts) ← pField ts
+  some ((k, f), ts)
+
+def pInt (s : String) : Option Int :=
+  if s.startsWith "-" then (s.drop 1).toString.toNat?.map fun n => -(n : Int)
+  else s.toNat?.map fun n => (n : Int)
+
+def pHex64 (s : String) : Option UInt64 :=
+  if s.length ≠ 16 then none else
+  s.toList.foldlM (fun acc c => (hexVal c).map fun d => acc * 16 + d) 0 |>.map UInt64.ofNat
+
+def pJson : Nat → P Json
+  | 0, _ => none
+  | fuel + 1, t :: r =>
+    if t == "n" then some (.null, r)
+    else if t == "t" then some (.bool true, r)
+    else if t == "f" then some (.bool false, r)
+    else
+      let body := (t.drop 1).toString
+      match t.toList.head? with
+      | some 'i' => do
+        let z ← pInt body
+        if 0 ≤ z then
+          if z ≤ (i64Max : Int) then some (.num (.pos (UInt64.ofNat z.toNat)), r) else none
+        else if i64Min ≤ z then some (.num (.neg (Int64.ofInt z)), r) else none
+      | some 'u' => do
+        let n ← body.toNat?
+        if n < 2 ^ 64 then some (.num (.pos (UInt64.ofNat n)), r) else none
+      | some 'd' => do
+        let b ← pHex64 body
+        some (.num (.flt b), r)
+      | some 's' => do
+        let s ← hexStr body
+        some (.str s, r)
+      | some 'a' => do
+        let n ← body.toNat?
+        let (xs, r) ← pMany (pJson fuel) n r
+        some (.arr xs, r)
+      | some 'o' => do
+        let n ← body.toNat?
+        let (kvs, r) ← pMany (fun ts => do
+          let (k, ts) ← pJson fuel ts
+          let (v, ts) ← pJson fuel ts
+          match k with
+          | .str k => some ((k, v), ts)
+          | _ => none) n r
+        some (.obj kvs, r)
+      | _ => none
+  | _, [] => none
+
+def pCalEntry : P (String × Option Int) := fun ts => do
+  let (s, ts) ← pStr ts
+  match ts with
+  | t :: r =>
+    if t == "n" then some ((s, none), r)
+    else if t.startsWith "z" then (pInt (t.drop 1).toString).map fun z => ((s, some z), r)
+    else none
+  | [] => none
+
+def libOf (tbl : List (String × Option Int)) : TimeLib := ⟨fun s => (tbl.lookup s).join⟩
+
+/-- Every top-level string of the payload must have its (model-)trimmed text in the table:
+the harness lists them all, so a miss means the two `trim`s disagree. -/
+def calCovers (tbl : List (String × Option Int)) : Json → Bool
+  | .obj kvs => kvs.all fun (_, v) =>
+    match v with
+    | .str s => (tbl.lookup (String.ofList (trimChars s.toList))).isSome
+    | _ => true
+  | _ => true
+
+partial def showType : FieldType → String
+  | .string => "S" | .u64 => "U" | .i64 => "I" | .f64 => "F" | .bool => "B"
+  | .timestamp => "T" | .date => "D"
+  | .optional t => "O " ++ showType t
+  | .enum vs => " ".intercalate (("E" :: toString vs.length :: vs.map strHex))
+
+/-- `ScalarValue::from(serde_json::Value)` as far as the summary needs it. -/
+def showStored : Json → String
+  | .null => "n"
+  | .bool _ => "b"
+  | .num (.pos n) => if n.toNat ≤ i64Max then s!"i{n.toNat}" else "s"
+  | .num (.neg i) => s!"i{i.toInt}"
+  | .num (.flt b) => s!"d{b.toNat}"
+  | .str _ => "s"
+  | .arr _ => "s"
+  | .obj _ => "s"
+
+def showPayload (kvs : List (String × Json)) : String :=
+  if kvs.isEmpty then "-" else " ".intercalate (kvs.map fun (k, v) => strHex k ++ ":" ++ showStored v)
+
+def utf8Len (s : String) : Nat := s.utf8ByteSize
+
+def showErr : Err → String
+  | .emptyType => "err empty-type"
+  | .emptyContext => "err empty-context"
+  | .noSchema => "err no-schema"
+  | .invalid .notObject => "err not-object"
+  | .invalid (.mismatch f) => "err mismatch " ++ strHex f
+  | .invalid (.missing f) => "err missing " ++ strHex f
+  | .invalid (.extra ks) =>
+    s!"err extra {ks.length} {(ks.map utf8Len).foldl (· + ·) 0 + 2 * (ks.length - 1)}"
+  | .time .magnitude => "err time-magnitude"
+  | .time .badString => "err time-string"
+  | .time .badKind => "err time-kind"
+  | .alreadyDefined => "err already-defined"
+  | .emptySchema => "err empty-schema"
+
+def schemaOfFields (fs : List (String × Sum FieldSpec FieldType)) : Schema :=
+  fs.map fun (k, f) => (k, fieldType f)
+
+def showStore (lib : TimeLib) (st : St) (et ctx : String) (payload : Json) : String × St :=
+  match store lib st et ctx payload with
+  | (.ok (), st') =>
+    match st'.events.getLast? with
+    | some e => ("ok " ++ showPayload e.payload, st')
+    | none => ("bad-op", st')
+  | (.error e, st') => (showErr e, st')
+
+/-! ### session ops
+`D <etype> <n> (<name> <field>)*`   define (fields given in the registry's iteration order)
+`S <etype> <ctx> <json>`            store
+`Q <etype> <keyfield>`              query: ids (values of integer field `<keyfield>`) stored so far, ascending
+-/
+inductive SOp where
+  | define (et : String) (fs : List (String × Sum FieldSpec FieldType))
+  | store (et ctx : String) (p : Json)
+  | query (et key : String)
+
+def pSOp : P SOp
+  | "D" :: r => do
+    let (et, r) ← pStr r
+    let (n, r) ← pNat r
+    let (fs, r) ← pMany pNamedField n r
+    some (.define et fs, r)
+  | "S" :: r => do
+    let (et, r) ← pStr r
+    let (ctx, r) ← pStr r
+    let (p, r) ← pJson (r.length + 1) r
+    some (.store et ctx p, r)
+  | "Q" :: r => do
+    let (et, r) ← pStr r
+    let (k, r) ← pStr r
+    some (.query et k, r)
+  | _ => none
+
+def insertSorted (x : Int) : List Int → List Int
+  | [] => [x]
+  | y :: ys => if x ≤ y then x :: y :: ys else y :: insertSorted x ys
+
+def runSession (lib : TimeLib) : List SOp → St → List String → List String
+  | [], _, acc => acc.reverse
+  | .define et fs :: rest, st, acc =>
+    -- direct types cannot occur in a session (text DEFINE only): treat every entry through its type
+    let schema := schemaOfFields fs
+    let (r, st') :=
+      if (st.schemas.lookup et).isSome then ((Except.error Err.alreadyDefined : Except Err Unit), st)
+      else if schema.isEmpty then (.error .emptySchema, st)
+      else (.ok (), { st with schemas := st.schemas ++ [(et, schema)] })
+    runSession lib rest st' ((match r with | .ok _ => "ok" | .error e => showErr e) :: acc)
+  | .store et ctx p :: rest, st, acc =>
+    if !calCovers (match lib with | ⟨_⟩ => []) p then runSession lib rest st ("bad-op" :: acc) else
+    let (s, st') := showStore lib st et ctx p
+    runSession lib rest st' ((if s.startsWith "ok" then "ok" else s) :: acc)
+  | .query et key :: rest, st, acc =>
+    let ids := (query st et none).foldl (fun l e =>
+      match e.payload.lookup key with
+      | some (.num (.pos n)) => insertSorted (n.toNat : Int) l
+      | some (.num (.neg i)) => insertSorted i.toInt l
+      | _ => l) []
+    runSession lib rest st (("rows " ++ ",".intercalate (ids.map toString)) :: acc)
+
+def answer (line : String) : String :=
+  match words line with
+  | ["alias", h] =>
+    match hexStr h with
+    | some s =>
+      match fromSpecChars s.toList with
+      | some t => showType t
+      | none => "none"
+    | none => "bad-op"
+  | "deftypes" :: rest =>
+    match (do
+      let (n, r) ← pNat rest
+      let (fs, r) ← pMany pNamedField n r
+      if r.isEmpty then some fs else none) with
+    | some fs => if fs.isEmpty then "-" else
+      " ".intercalate (fs.map fun (k, f) => strHex k ++ ":" ++ (showType (fieldType f)).replace " " ",")
+    | none => "bad-op"
+  | "store" :: rest =>
+    match (do
+      let (et, r) ← pStr rest
+      let (ctx, r) ← pStr r
+      let (defd, r) ← pNat r
+      let (n, r) ← pNat r
+      let (fs, r) ← pMany pNamedField n r
+      let (nc, r) ← pNat r
+      let (tbl, r) ← pMany pCalEntry nc r
+      let (p, r) ← pJson (r.length + 1) r
+      if r.isEmpty && defd ≤ 1 then some (et, ctx, defd, fs, tbl, p) else none) with
+    | some (et, ctx, defd, fs, tbl, p) =>
+      if !calCovers tbl p then "bad-op cal-miss" else
+      let st : St := ⟨if defd = 1 then [(et, schemaOfFields fs)] else [], []⟩
+      (showStore (libOf tbl) st et ctx p).1
+    | none => "bad-op"
+  | "session" :: rest =>
+    match (do
+      let (nc, r) ← pNat rest
+      let (tbl, r) ← pMany pCalEntry nc r
+      let (n, r) ← pNat r
+      let (ops, r) ← pMany pSOp n r
+      if r.isEmpty then some (tbl, ops) else none) with
+    | some (tbl, ops) =>
+      -- cal coverage is checked per store against the session table
+      let lib := libOf tbl
+      let bad := ops.any fun o => match o with | .store _ _ p => !calCovers tbl p | _ => false
+      if bad then "bad-op cal-miss" else
+      "; ".intercalate (runSession lib ops St.empty [])
+    | none => "bad-op"
+  | _ => "bad-op"
+
+def main : IO Unit := serve answer
